@@ -137,6 +137,13 @@ Fixpoint upto_err (raw : mscript) : mscript :=
   end.
 Definition has_err (raw : mscript) : bool := existsb (fun m => match snd m with Some _ => true | None => false end) raw.
 
+(* specification of the filter: the stream without the heartbeats, up to and
+   including its first error; the end of the script shows as an E_EOS error *)
+Definition not_hb (hb : bytes) (m : msg) : bool := negb (bytes_eqb hb (fst m)).
+Definition delivered (hb : bytes) (raw : mscript) : mscript :=
+  let f := filter (not_hb hb) raw in
+  if has_err f then upto_err f else f ++ [([], Some E_EOS)].
+
 (* hbConn as a transition system: recvLoop (producer), Read (consumer), and a
    Close that may come from the watchdog / the queue-full timer at any moment.
    [hq] is recvCh, [hclosed] the closed channel, [hloop] whether recvLoop still runs. *)
@@ -202,3 +209,271 @@ Definition wstep (st : wst) (e : wev) : wst :=
   end.
 Definition wrun (st : wst) (t : list wev) : wst := fold_left wstep t st.
 Definition no_hb (t : list wev) : Prop := Forall (fun e => e = WLoop) t.
+Definition all_hb (t : list wev) : Prop := Forall (fun e => e = WHb) t.
+(* a trace in which every sleep of the loop sees at least one heartbeat:
+   check, (heartbeats), reset, heartbeats+ , ... *)
+Inductive live_trace : list wev -> Prop :=
+| live_nil : live_trace []
+| live_round h1 h2 t : all_hb h1 -> all_hb h2 -> h2 <> [] -> live_trace t ->
+    live_trace (WLoop :: h1 ++ WLoop :: h2 ++ t).
+
+(* ------------------------------------------------------------------ *)
+(* (iii) SCTPConn.Write flow control (sctpconn.go:94-136)              *)
+(* ------------------------------------------------------------------ *)
+
+Definition wmax : N := 262144.     (* writeMaxBufferedAmount *)
+Definition wthr : N := 131072.     (* writeMaxBufferedAmount / 2: low threshold and per-write limit *)
+Definition E_LIMIT   : err := 4.   (* "write limit exceeded" *)
+Definition E_WCLOSED : err := 5.   (* "closed" *)
+
+(* the writer holding writeMutex: idle, blocked in the select, or past it and about to call stream.Write *)
+Inductive fwriter := FIdle | FWait (n : N) | FGo (n : N).
+(* [fforeign] is a ghost: bytes written to the stream without passing flow control (client heartbeats) *)
+Record fcst := mkF { fbuf : N; ftoken : bool; fwr : fwriter; fclosed : bool; fforeign : N }.
+Definition fc_init : fcst := mkF 0 false FIdle false 0.
+
+Inductive fcop :=
+| FStart (n : N)     (* Write(b) with len(b) = n up to the BufferedAmount check *)
+| FTake              (* the blocked writer receives the token *)
+| FAbort             (* the blocked writer sees closed *)
+| FDo                (* stream.Write *)
+| FDrain (d : N)     (* the network releases d buffered bytes; the callback fires on a downward crossing *)
+| FForeign (k : N)   (* a write that bypasses SCTPConn (hbClient.sendLoop) *)
+| FCloseOp.
+Inductive fcout := FNone | FRet (n : N) (e : option err).
+
+Definition fc_step (st : fcst) (op : fcop) : fcst * fcout :=
+  match op with
+  | FStart n =>
+      match fwr st with
+      | FIdle =>
+          if n =? 0 then (st, FRet 0 None)
+          else if wthr <? n then (st, FRet 0 (Some E_LIMIT))
+          else if wmax <? fbuf st + n
+               then (mkF (fbuf st) (ftoken st) (FWait n) (fclosed st) (fforeign st), FNone)
+               else (mkF (fbuf st) (ftoken st) (FGo n) (fclosed st) (fforeign st), FNone)
+      | _ => (st, FNone)
+      end
+  | FTake =>
+      match fwr st with
+      | FWait n => if ftoken st then (mkF (fbuf st) false (FGo n) (fclosed st) (fforeign st), FNone)
+                   else (st, FNone)
+      | _ => (st, FNone)
+      end
+  | FAbort =>
+      match fwr st with
+      | FWait n => if fclosed st then (mkF (fbuf st) (ftoken st) FIdle true (fforeign st), FRet 0 (Some E_WCLOSED))
+                   else (st, FNone)
+      | _ => (st, FNone)
+      end
+  | FDo =>
+      match fwr st with
+      | FGo n => (mkF (fbuf st + n) (ftoken st) FIdle (fclosed st) (fforeign st), FRet n None)
+      | _ => (st, FNone)
+      end
+  | FDrain d =>
+      let b' := fbuf st - d in
+      (mkF b' (ftoken st || ((wthr <? fbuf st) && (b' <=? wthr))) (fwr st) (fclosed st) (fforeign st), FNone)
+  | FForeign k => (mkF (fbuf st + k) (ftoken st) (fwr st) (fclosed st) (fforeign st + k), FNone)
+  | FCloseOp => (mkF (fbuf st) (ftoken st) (fwr st) true (fforeign st), FNone)
+  end.
+
+Fixpoint fc_run (st : fcst) (ops : list fcop) : fcst * list fcout :=
+  match ops with
+  | [] => (st, [])
+  | op :: r => let '(st1, o) := fc_step st op in
+               let '(st2, os) := fc_run st1 r in (st2, o :: os)
+  end.
+(* every state the run passes through *)
+Fixpoint fc_trace (st : fcst) (ops : list fcop) : list fcst :=
+  st :: match ops with [] => [] | op :: r => fc_trace (fst (fc_step st op)) r end.
+
+(* ------------------------------------------------------------------ *)
+(* (iv) Listener: connToCert / connMap (listener.go)                   *)
+(* ------------------------------------------------------------------ *)
+(* Any number of acceptor threads (acceptDTLSConn) and connection threads (the
+   goroutine acceptLoop starts per inbound connection) are identified by
+   natural numbers; their secrets are fixed by [asecs] / [csecs]; [hr] is
+   clientHelloRandomFromSeed.  Each atomic step is one mutex-protected section
+   or one channel operation of the Go code. *)
+
+Definition updN {A} (f : N -> A) (k : N) (v : A) : N -> A := fun j => if j =? k then v else f j.
+Definition updn {A} (f : nat -> A) (k : nat) (v : A) : nat -> A := fun j => if (j =? k)%nat then v else f j.
+
+Inductive apc_t :=
+| A0      (* before registerCert *)
+| A1      (* cert registered, before registerChannel *)
+| A2      (* channel registered: in the select *)
+| A3      (* select left: deferred removeChannel pending *)
+| A4      (* deferred removeCert pending *)
+| ADone.  (* returned *)
+Inductive ares_t := RNone | RGot (c : nat) | RErrDup | RErrChan | RCancelled.
+Record athread := mkA { apc : apc_t; acancel : bool; ares : ares_t }.
+
+Inductive cpc_t :=
+| C0      (* ClientHello received: getCertificateFromClientHello pending *)
+| C1      (* verifyConnection pending *)
+| C2      (* handshake complete: chFromID pending *)
+| C3      (* holds a channel: select { send, ctx.Done } *)
+| CSent   (* connection handed over *)
+| CFail   (* handshake failed *)
+| CDrop.  (* connection not delivered (id not registered, or timeout) *)
+Record cthread := mkC { cpc : cpc_t; cserver : option N; cverified : bool; cchan : option nat }.
+
+Record lcfg := mkL {
+  certs : N -> option nat;      (* connToCert: hello-random -> the acceptor whose certificates are stored *)
+  chans : N -> option nat;      (* connMap: hello-random -> the acceptor whose channel is stored *)
+  bufs  : nat -> option nat;    (* the one-slot buffer of each acceptor's channel *)
+  acc   : nat -> athread;
+  cns   : nat -> cthread }.
+
+Definition linit : lcfg :=
+  mkL (fun _ => None) (fun _ => None) (fun _ => None)
+      (fun _ => mkA A0 false RNone) (fun _ => mkC C0 None false None).
+
+Inductive lop :=
+| LA (a : nat)           (* the acceptor's next mutex-protected section *)
+| LRecv (a : nat)        (* select: conn := <-connCh *)
+| LCancelled (a : nat)   (* select: <-ctx.Done() *)
+| LCancel (a : nat)      (* the caller cancels the accept's context *)
+| LC (c : nat)           (* the connection thread's next section *)
+| LSend (c : nat)        (* select: acceptCh <- conn *)
+| LTimeout (c : nat).    (* select: <-ctx.Done() *)
+
+Definition holds_cert (p : apc_t) : bool := match p with A1 | A2 | A3 | A4 => true | _ => false end.
+Definition holds_chan (p : apc_t) : bool := match p with A2 | A3 => true | _ => false end.
+
+Section Registry.
+  Variable hr : N -> N.
+  Variable asecs csecs : nat -> N.
+
+  Definition set_acc (g : lcfg) (a : nat) (t : athread) : lcfg :=
+    mkL (certs g) (chans g) (bufs g) (updn (acc g) a t) (cns g).
+  Definition set_cn (g : lcfg) (c : nat) (t : cthread) : lcfg :=
+    mkL (certs g) (chans g) (bufs g) (acc g) (updn (cns g) c t).
+
+  Definition lstep (g : lcfg) (op : lop) : lcfg :=
+    match op with
+    | LA a =>
+        let t := acc g a in
+        let k := hr (asecs a) in
+        match apc t with
+        | A0 => match certs g k with
+                | Some _ => set_acc g a (mkA ADone (acancel t) RErrDup)
+                | None => mkL (updN (certs g) k (Some a)) (chans g) (bufs g)
+                              (updn (acc g) a (mkA A1 (acancel t) (ares t))) (cns g)
+                end
+        | A1 => match chans g k with
+                | Some _ => set_acc g a (mkA A4 (acancel t) RErrChan)
+                | None => mkL (certs g) (updN (chans g) k (Some a)) (bufs g)
+                              (updn (acc g) a (mkA A2 (acancel t) (ares t))) (cns g)
+                end
+        | A3 => mkL (certs g) (updN (chans g) k None) (bufs g)
+                    (updn (acc g) a (mkA A4 (acancel t) (ares t))) (cns g)
+        | A4 => mkL (updN (certs g) k None) (chans g) (bufs g)
+                    (updn (acc g) a (mkA ADone (acancel t) (ares t))) (cns g)
+        | _ => g
+        end
+    | LRecv a =>
+        let t := acc g a in
+        match apc t, bufs g a with
+        | A2, Some c => mkL (certs g) (chans g) (updn (bufs g) a None)
+                            (updn (acc g) a (mkA A3 (acancel t) (RGot c))) (cns g)
+        | _, _ => g
+        end
+    | LCancelled a =>
+        let t := acc g a in
+        match apc t with
+        | A2 => if acancel t then set_acc g a (mkA A3 true RCancelled) else g
+        | _ => g
+        end
+    | LCancel a => let t := acc g a in set_acc g a (mkA (apc t) true (ares t))
+    | LC c =>
+        let t := cns g c in
+        let k := hr (csecs c) in
+        match cpc t with
+        | C0 => (* the server certificate is picked by the client's hello-random; a random one if none *)
+                set_cn g c (mkC C1 (match certs g k with Some a => Some (asecs a) | None => None end)
+                                (cverified t) (cchan t))
+        | C1 => (* assumption on pion: the handshake completes iff the client accepted the server
+                   certificate (same key as its own) and verifyConnection finds the client's key *)
+                match cserver t, certs g k with
+                | Some s, Some a =>
+                    if (s =? csecs c) && (asecs a =? csecs c)
+                    then set_cn g c (mkC C2 (cserver t) true (cchan t))
+                    else set_cn g c (mkC CFail (cserver t) (cverified t) (cchan t))
+                | _, _ => set_cn g c (mkC CFail (cserver t) (cverified t) (cchan t))
+                end
+        | C2 => match chans g k with
+                | Some a => set_cn g c (mkC C3 (cserver t) (cverified t) (Some a))
+                | None => set_cn g c (mkC CDrop (cserver t) (cverified t) (cchan t))
+                end
+        | _ => g
+        end
+    | LSend c =>
+        let t := cns g c in
+        match cpc t, cchan t with
+        | C3, Some a =>
+            match bufs g a with
+            | None => mkL (certs g) (chans g) (updn (bufs g) a (Some c)) (acc g)
+                          (updn (cns g) c (mkC CSent (cserver t) (cverified t) (cchan t)))
+            | Some _ => g
+            end
+        | _, _ => g
+        end
+    | LTimeout c =>
+        let t := cns g c in
+        match cpc t with
+        | C3 => set_cn g c (mkC CDrop (cserver t) (cverified t) (cchan t))
+        | _ => g
+        end
+    end.
+
+  Definition lrun (g : lcfg) (ops : list lop) : lcfg := fold_left lstep ops g.
+End Registry.
+
+(* ------------------------------------------------------------------ *)
+(* (v) hello-random and certificate material from the secret           *)
+(*     (seedtocert.go)                                                 *)
+(* ------------------------------------------------------------------ *)
+
+Definition bytes_of_string (s : string) : bytes := map N_of_ascii (list_ascii_of_string s).
+Definition be2n (b : bytes) : N := fold_left (fun a x => a * 256 + x) b 0.
+Definition p256_order : N :=
+  115792089210356248762697446949407573529996955224135760342422259061068512044369.
+Definition serial_max : N := 2 ^ 130 - 1.
+
+(* what identifies a certificate of this package: the ECDSA private scalar,
+   the serial number and the 8 raw bytes behind the common name *)
+Record certmat := mkCM { cm_d : N; cm_serial : N; cm_cn : bytes }.
+
+Section Material.
+  (* hkdf secret info n = the first n bytes of HKDF-SHA256(secret, salt = info, info = nil)
+     exactly as seedtocert.go calls hkdf.New(sha256.New, seed, []byte(label), nil) *)
+  Variable hkdf : bytes -> bytes -> nat -> bytes.
+
+  Definition label_hello : bytes := bytes_of_string "clientHelloRandomFromSeed".
+  Definition label_certs : bytes := bytes_of_string "certsFromSeed".
+
+  Definition hello_random (s : bytes) : bytes := hkdf s label_hello 32.
+
+  (* newCertificate on a byte stream: 40 bytes for keygen.ECDSALegacy (P-256),
+     17 bytes for rand.Int(2^130-1) (two top bits kept; the all-ones value would be
+     resampled: None, outside the model), 8 bytes for the common name *)
+  Definition cert_of (st : bytes) : option (certmat * bytes) :=
+    let kb := firstn 40 st in
+    let sb := firstn 17 (skipn 40 st) in
+    let serial := be2n (match sb with x :: r => N.land x 3 :: r | [] => [] end) in
+    if serial <? serial_max
+    then Some (mkCM (be2n kb mod (p256_order - 1) + 1) serial (firstn 8 (skipn 57 st)), skipn 65 st)
+    else None.
+
+  (* certsFromSeed: client certificate first, then the server certificate, from one stream *)
+  Definition certs_from_seed (s : bytes) : option (certmat * certmat) :=
+    match cert_of (hkdf s label_certs 130) with
+    | Some (c1, r) => match cert_of r with Some (c2, _) => Some (c1, c2) | None => None end
+    | None => None
+    end.
+
+  Definition material (s : bytes) := (hello_random s, certs_from_seed s).
+End Material.
